@@ -88,7 +88,7 @@ def check(an, rep, tier):
                       'no rejection for e_vld given without I_vld / y_vld',
                       line=fn.node.lineno, file=mod.path)
     # --- interpreter: every return path well formed, batches int [rows, d]
-    ds = (2, 3) if tier == 'quick' else (2, 3, 4)
+    ds = (2, 3) if tier == 'quick' else (2, 3, 4, 5)
     vs = specs.variants('cross.cross')
     for vi in range(len(vs)):
         for d in ds:
